@@ -592,7 +592,21 @@ pub fn validate<S: Src + ?Sized>(s: &S, p: &Parsed, o: &ValidateOpts) -> Vec<Str
                     None => ok_to_decode = false,
                 }
             }
-            if ok_to_decode {
+            if ok_to_decode && c.usize > (256 << 20) {
+                // huge decoded size: stream it (length + CRC only)
+                match super::decode_len_crc(c.method, &data) {
+                    Some(Ok((n, crc))) => {
+                        if n != c.usize {
+                            bad.push(format!("entry {i}: decoded {n} bytes, header says {}", c.usize));
+                        }
+                        if crc != c.crc {
+                            bad.push(format!("entry {i}: CRC of decoded data {crc:#x} != recorded {:#x}", c.crc));
+                        }
+                    }
+                    Some(Err(e)) => bad.push(format!("entry {i}: data does not decode with method {}: {e}", c.method)),
+                    None => {}
+                }
+            } else if ok_to_decode {
                 match decode(c.method, &data, c.usize.min(1 << 31) as usize) {
                     Some(Ok(plain)) => {
                         if plain.len() as u64 != c.usize {
